@@ -78,6 +78,11 @@ def make(kind, kwargs, hidden=None):
         import numpy as np
         shape = tuple(int(s) for s in k[1].split("x"))
         return np.array(_nest(kwargs, shape, "L"))
+    if t in ("iarray", "barray"):      # numpy arrays of a dtype that cannot hold NaN
+        import numpy as np
+        shape = tuple(int(s) for s in k[1].split("x"))
+        a = np.array(_nest(kwargs, shape, "L"))
+        return (a.astype("int64") % 100003) if t == "iarray" else ((a.astype("int64") % 2) == 1)
     if t == "multi":      # multi:<spec>,<spec>...  e.g. multi:s,a3,a2x2,b,t -> tuple of outputs
         import numpy as np
         out = []
